@@ -91,3 +91,8 @@ Fixpoint step_in_n (its : list iter) (n : nat) (s : sim) {struct n} : option sim
                    end
       end
   end.
+
+(* the tripwire of an unbroken run that behaves like T1 for the first n1 instructions and like
+   T2 (counting its calls from 0 again) afterwards *)
+Definition trip_seq (n1 : nat) (T1 T2 : tripwire) : tripwire :=
+  fun k x => if (k <? n1)%nat then T1 k x else T2 (k - n1)%nat x.
